@@ -92,6 +92,46 @@ class _Displays(ast.NodeTransformer):
             sl.lower = None
         return node
 
+    def _flatten(self, node):
+        # (*(a, b), c)  ->  (a, b, c)
+        node = self.generic_visit(node)
+        if isinstance(node.ctx, ast.Load) and any(isinstance(e, ast.Starred) and isinstance(e.value, (ast.Tuple, ast.List))
+                                                  for e in node.elts):
+            elts = []
+            for e in node.elts:
+                if isinstance(e, ast.Starred) and isinstance(e.value, (ast.Tuple, ast.List)):
+                    elts.extend(e.value.elts)
+                else:
+                    elts.append(e)
+            node.elts = elts
+        return node
+
+    visit_Tuple = _flatten
+    visit_List = _flatten
+
+    def visit_Compare(self, node):
+        node = self.generic_visit(node)
+        # <constant> is [not] None  ->  True / False   (arises where a helper was inlined with a constant argument)
+        if len(node.ops) == 1 and isinstance(node.ops[0], (ast.Is, ast.IsNot)) and isinstance(node.left, ast.Constant) and \
+                isinstance(node.comparators[0], ast.Constant) and (node.left.value is None or node.comparators[0].value is None):
+            same = node.left.value is None and node.comparators[0].value is None
+            return ast.copy_location(ast.Constant(value=same if isinstance(node.ops[0], ast.Is) else not same), node)
+        return node
+
+    def visit_JoinedStr(self, node):
+        node = self.generic_visit(node)
+        # f"og_{'hue'}_lb"  ->  "og_hue_lb"   (every part a string constant, no conversion / format spec)
+        parts = []
+        for v in node.values:
+            if isinstance(v, ast.Constant) and isinstance(v.value, str):
+                parts.append(v.value)
+            elif isinstance(v, ast.FormattedValue) and v.conversion == -1 and v.format_spec is None and \
+                    isinstance(v.value, ast.Constant) and isinstance(v.value.value, str):
+                parts.append(v.value.value)
+            else:
+                return node
+        return ast.copy_location(ast.Constant(value="".join(parts)), node)
+
     def visit_Call(self, node):
         node = self.generic_visit(node)
         # "a{}b{}".format(x, y)  ->  f"a{x}b{y}"   (plain positional placeholders only)
@@ -108,6 +148,11 @@ class _Displays(ast.NodeTransformer):
                     if i < len(node.args):
                         vals.append(ast.FormattedValue(value=node.args[i], conversion=-1, format_spec=None))
                 return ast.copy_location(ast.JoinedStr(values=vals), node)
+        # getattr(x, "name")  ->  x.name
+        if isinstance(node.func, ast.Name) and node.func.id == "getattr" and len(node.args) == 2 and not node.keywords and \
+                isinstance(node.args[1], ast.Constant) and isinstance(node.args[1].value, str) and \
+                node.args[1].value.isidentifier() and not node.args[1].value.startswith("__"):
+            return ast.copy_location(ast.Attribute(value=node.args[0], attr=node.args[1].value, ctx=ast.Load()), node)
         if isinstance(node.func, ast.Name) and not node.args and not node.keywords:
             if node.func.id == "list":
                 return ast.copy_location(ast.List(elts=[], ctx=ast.Load()), node)
@@ -119,6 +164,17 @@ class _Displays(ast.NodeTransformer):
 
 
 def _rewrite_stmt(fn, s: ast.stmt) -> List[ast.stmt]:
+    # if <True / False>: A else: B   ->   A / B
+    if isinstance(s, ast.If) and isinstance(s.test, ast.Constant) and isinstance(s.test.value, bool):
+        live = s.body if s.test.value else s.orelse
+        return list(live) if live else [ast.copy_location(ast.Pass(), s)]
+    # setattr(x, "name", v)  ->  x.name = v
+    if isinstance(s, ast.Expr) and isinstance(s.value, ast.Call) and isinstance(s.value.func, ast.Name) and \
+            s.value.func.id == "setattr" and len(s.value.args) == 3 and not s.value.keywords and \
+            isinstance(s.value.args[1], ast.Constant) and isinstance(s.value.args[1].value, str) and \
+            s.value.args[1].value.isidentifier() and not s.value.args[1].value.startswith("__") and _is_chain(s.value.args[0]):
+        tgt = ast.Attribute(value=s.value.args[0], attr=s.value.args[1].value, ctx=ast.Store())
+        return _rewrite_stmt(fn, ast.fix_missing_locations(ast.copy_location(ast.Assign(targets=[tgt], value=s.value.args[2]), s)))
     # a, b = x, y
     if isinstance(s, ast.Assign) and len(s.targets) == 1 and isinstance(s.targets[0], ast.Tuple) and \
             isinstance(s.value, ast.Tuple) and len(s.targets[0].elts) == len(s.value.elts) and \
@@ -223,7 +279,7 @@ def _rewrite_stmt(fn, s: ast.stmt) -> List[ast.stmt]:
     # for v in [a, b]: BODY   ->   v = a; BODY; v = b; BODY   (short displays; BODY without break / continue of its own level)
     if isinstance(s, ast.For) and isinstance(s.iter, (ast.List, ast.Tuple)) and 1 <= len(s.iter.elts) <= 4 and not s.orelse and \
             isinstance(s.target, ast.Name) and not any(isinstance(e, ast.Starred) for e in s.iter.elts) and \
-            not _own_level_jump(s.body) and (len(s.iter.elts) == 1 or sum(1 for b in s.body for _ in ast.walk(b)) <= 60):
+            not _own_level_jump(s.body) and (len(s.iter.elts) == 1 or sum(1 for b in s.body for _ in ast.walk(b)) <= 220):
         elts = list(s.iter.elts)
         stored = {n.id for b in s.body for n in ast.walk(b) if isinstance(n, ast.Name) and isinstance(n.ctx, ast.Store)}
         later = set()
@@ -233,10 +289,28 @@ def _rewrite_stmt(fn, s: ast.stmt) -> List[ast.stmt]:
         # be calls whose evaluation would move behind the earlier iterations
         if not (later & (stored | {s.target.id})) and not any(_has_call(e) for e in elts[1:]):
             out = []
+            v_ = s.target.id
+            rebinds = v_ in stored
+            src_body = copy.deepcopy(s.body)
             for i, e in enumerate(elts):
-                out.append(ast.copy_location(ast.Assign(targets=[ast.Name(id=s.target.id, ctx=ast.Store())], value=e), s))
-                body = s.body if i == 0 else copy.deepcopy(s.body)
-                out.extend(body)
+                out.append(ast.copy_location(ast.Assign(targets=[ast.Name(id=v_, ctx=ast.Store())], value=e), s))
+                body = copy.deepcopy(src_body)
+                if isinstance(e, ast.Constant) and not rebinds:
+                    # a constant element: the iteration's copy of BODY reads the constant itself (names computed from it fold)
+                    class _K(ast.NodeTransformer):
+                        def visit_Name(self, node):
+                            if node.id == v_ and isinstance(node.ctx, ast.Load):
+                                return ast.copy_location(ast.Constant(value=e.value), node)
+                            return node
+
+                        def visit_Lambda(self, node):
+                            return node
+                    body = [_K().visit(b) for b in body]
+                    d_ = _Displays()
+                    body = [d_.visit(b) for b in body]
+                for b in body:
+                    ast.fix_missing_locations(b)
+                    out.extend(_rewrite_stmt(fn, b) if not isinstance(b, (ast.For, ast.While, ast.If, ast.With, ast.Try)) else [b])
             for x in out:
                 ast.fix_missing_locations(x)
             return out
@@ -870,7 +944,15 @@ def _forward_flags(fn) -> bool:
 
 
 def normalise_function(fn):
+    before = ast.dump(fn)
     _normalise_function_once(fn)
+    for _ in range(2):
+        # a rewrite can enable another one inside blocks that were visited before it (unrolled loops with constant elements)
+        after = ast.dump(fn)
+        if after == before:
+            break
+        before = after
+        _normalise_function_once(fn)
     _forward_getattr_methods(fn)
     _expand_quantifiers(fn)
     _forward_flags(fn)
